@@ -42,6 +42,7 @@ def _cargo(args, cwd, target, timeout=BUILD_TIMEOUT, json_msgs=False):
 
 
 def ensure_lock():
+    common.ensure_alt_harness()
     lock = os.path.join(HARNESS, "Cargo.lock")
     if not os.path.exists(lock):
         shutil.copy(os.path.join(REPO, "Cargo.lock"), lock)
